@@ -345,3 +345,74 @@ func (ex *Exec) sprintf(st *State, args []Val) Term {
 }
 
 var _ = strings.Contains
+
+// pureLib: library functions modelled as deterministic uninterpreted functions of their arguments
+// (no effect on any state, same arguments give the same result). Listed in the evidence as assumptions.
+var pureLib = map[string]bool{
+	"strings.ToUpper": true, "strings.ToLower": true, "strings.TrimSpace": true, "strings.HasPrefix": true, "strings.HasSuffix": true,
+	"strings.Contains": true, "strings.Index": true, "strings.Split": true, "strings.SplitN": true, "strings.Join": true, "strings.Repeat": true,
+	"strings.ReplaceAll": true, "strings.Replace": true, "strings.TrimPrefix": true, "strings.TrimSuffix": true, "strings.EqualFold": true,
+	"strconv.Itoa": true, "strconv.FormatInt": true, "strconv.Quote": true,
+	"(net/url.Values).Get": true, "(net/url.Values).Has": true, "(*net/url.URL).Query": true, "(net/http.Header).Get": true,
+	"(*net/http.Request).Context": true, "github.com/go-chi/chi/v5.URLParam": true,
+	"(*regexp.Regexp).MatchString": true, "(*regexp.Regexp).FindAllStringSubmatch": true, "(*regexp.Regexp).FindStringSubmatch": true,
+	"(time.Time).Format": true, "(time.Time).UTC": true, "(time.Time).IsZero": true, "(time.Time).Round": true, "(time.Time).Equal": true,
+	"(time.Time).Before": true, "(time.Time).After": true,
+}
+
+func (ex *Exec) pureLibCall(name string, callee *ssa.Function, args []Val, st *State, k CallCont) {
+	vc := ex.vc
+	sig := callee.Signature
+	var as, sorts []string
+	params := sig.Params()
+	for i, a := range args {
+		var t types.Type
+		if sig.Recv() != nil {
+			if i == 0 {
+				t = sig.Recv().Type()
+			} else if i-1 < params.Len() {
+				t = params.At(i - 1).Type()
+			}
+		} else if i < params.Len() {
+			t = params.At(i).Type()
+		}
+		tm := ex.toTerm(st, a, t)
+		as = append(as, tm.S)
+		sorts = append(sorts, tm.Sort)
+	}
+	vc.usedExt["pure library function (deterministic, no effects): "+name] = true
+	res := sig.Results()
+	mk := func(i int) Val {
+		rs := vc.sorts.SortOf(res.At(i).Type())
+		fn := libFuncName(name, i, sorts)
+		vc.declareFun(fn, sorts, rs)
+		if len(as) == 0 {
+			return tv(Term{fn, rs})
+		}
+		return tv(Term{app(fn, as...), rs})
+	}
+	switch res.Len() {
+	case 0:
+		k(st, Val{}, false)
+	case 1:
+		k(st, mk(0), false)
+	default:
+		var tup []Val
+		for i := 0; i < res.Len(); i++ {
+			tup = append(tup, mk(i))
+		}
+		k(st, Val{K: VTuple, Tup: tup}, false)
+	}
+}
+
+func libFuncName(name string, idx int, sorts []string) string {
+	n := "lib_" + sanitize(name)
+	if idx > 0 {
+		n += fmt.Sprintf("_r%d", idx)
+	}
+	// one symbol per argument-sort tuple (variadic or overloaded uses)
+	for _, s := range sorts {
+		n += "_" + sanitize(s)[:minInt(6, len(sanitize(s)))]
+	}
+	return n
+}
